@@ -121,6 +121,7 @@ def run(tier, out, model_ok, proof):
         for x in mism[:30]:
             out.broken.append({"what": "directive-layer model and implementation disagree: " + x["what"],
                                "detail": {n: bytes.fromhex(h).decode("latin1")[:600] for n, h in x["case"]["files"].items()}})
+        treecorr.placed_check(mm, tc, out)
     ms = sorted(r.get("ms", 0) for r in res.values())
     out.coverage.update({
         "evaluations": len(cases),
